@@ -153,7 +153,54 @@ def c_mul(a, b):
     return (a[0] * b[0] - a[1] * b[1], a[0] * b[1] + a[1] * b[0])
 
 
+EXACT_LIMIT = 2 ** 50
+INEXACT = [False]        # set when an exact (intermediate or final) value could not be held exactly by float arithmetic
+
+
+def component_exact(x):
+    d = x.denominator
+    return abs(x) < EXACT_LIMIT and d & (d - 1) == 0 and abs(x.numerator).bit_length() <= 53
+
+
+def value_exact(v):
+    if v is None:
+        return True
+    comps = [v[1]] if v[0] == 's' else v[1]
+    return all(component_exact(x) for c in comps for x in c)
+
+
 def fr_eval(e, env):
+    """exact evaluation; every node's value is checked for float-exactness (INEXACT[0] records a failure)"""
+    v = fr_eval_node(e, env)
+    if not value_exact(v):
+        INEXACT[0] = True
+    return v
+
+
+def beyond_exact(dicts, dep_exprs):
+    """True when some value of the given samples (dicts name -> implementation value), or some intermediate of the exact
+    evaluation of a dependent formula on them, lies outside the range where float arithmetic is exact (guard band)"""
+    saved = INEXACT[0]
+    try:
+        for d in dicts:
+            env = {k: canon(v) for k, v in d.items()}
+            if any(v is not None and not value_exact(v) for v in env.values()):
+                return True
+            env = {k: v for k, v in env.items() if v is not None}
+            for nm, e in dep_exprs.items():
+                INEXACT[0] = False
+                try:
+                    fr_eval(fromlist(e), {k: v for k, v in env.items() if k != nm})
+                except FormulaError:
+                    pass
+                if INEXACT[0]:
+                    return True
+        return False
+    finally:
+        INEXACT[0] = saved
+
+
+def fr_eval_node(e, env):
     """exact evaluation of the generator fragment (independent of the library)"""
     k = e[0]
     if k == 'num':
@@ -649,6 +696,19 @@ def confirm_timeout(patience):
     return False
 
 
+def long_patience():
+    """the long limit while fewer than two calls have been confirmed as non-returning; afterwards a short one, so that a
+    looping implementation costs seconds per case, not minutes (the witnesses exist already)"""
+    return LONG if TIMEOUTS['confirmed'] < 2 else 8
+
+
+def note_timeout(patience):
+    if patience >= LONG:
+        TIMEOUTS['confirmed'] += 1
+    else:
+        TIMEOUTS['faced'] += 1
+
+
 def give_up_on_loops():
     """after two confirmed and six further non-returning calls, cyclic and dangling declarations are no longer run
     (counted in the evidence; the witnesses exist already)"""
@@ -717,7 +777,10 @@ def oracle_l1(cfg, st, out, log):
         for c in consts:
             if c not in symbols and not same_value(d[c], const_value(consts[c])):
                 fails.append('sample %d: constant %s = %r, declared %r' % (i, c, d[c], const_value(consts[c])))
+        INEXACT[0] = False
         exp, err = expected_sample(symbols, sf, consts, {s: canon(indep_vals[s]) for s in ind})
+        if INEXACT[0] or not all(value_exact(canon(v)) for v in d.values()):
+            exp = None          # beyond the exact float range: only the bit-for-bit re-evaluation below applies
         for s in symbols:
             if sf[s][0] != 'dep':
                 continue
@@ -948,6 +1011,10 @@ def level1(ctx, res, rng):
             if o is None or d is None:
                 res.notes.append('L1 case not expressible in the model value universe: %s' % cfg_key(cfg))
                 continue
+            if st == 'ret' and isinstance(out, list) and beyond_exact(out, {x: sf[x][1] for x in order if sf[x][0] == 'dep'}):
+                res.boundary += 1
+                dist['beyond_exact_float_range'] = dist.get('beyond_exact_float_range', 0) + 1
+                continue
             runs.append('([%s], %s, %s)' % ('; '.join('"%s"' % s for s in order), d, o))
             res.nontrivial.add((label, cfg_key(cfg)))
             okey = 'L1 outcome ' + (o.split(' ')[0].strip('()'))
@@ -985,6 +1052,9 @@ def l1_history(ctx, res, rng, terms, metas, dist):
     done = 0
     for g in range(n_hist):
         names, sf, consts = gen_graph(rng, 'h%d/%d' % (ctx['seed'], g), allow_illtyped=False)
+        if give_up_on_loops():
+            dist['histories skipped after repeated non-returning calls'] = dist.get('histories skipped after repeated non-returning calls', 0) + 1
+            continue
         consts = dict(consts)
         # constants carrying the names of some independent symbols (same shape), so that dropping the symbol leaves a closed graph
         ind = [s for s in names if sf[s][0] != 'dep']
@@ -1019,8 +1089,11 @@ def l1_history(ctx, res, rng, terms, metas, dist):
             cfg = {'level': 'L1', 'symbols': symbols, 'sf': sf, 'consts': consts, 'samples': samples}
             arg = list(symbols)
             del LOG[:]
+            pat = long_patience()
             st, out = core.guarded(sampling.gen_symbols_samples, arg, samples, sample_from, functions, suffixes, shared_consts,
-                                   seconds=LONG)
+                                   seconds=pat)
+            if st == 'timeout':
+                note_timeout(pat)
             log = list(LOG)
             res.oracle_evals += 1
             text = None
@@ -1042,7 +1115,10 @@ def l1_history(ctx, res, rng, terms, metas, dist):
                 break
             n_ind = len([s for s in symbols if sf[s][0] != 'dep'])
             o, d = obs_term(st, out, samples), draws_term(log, n_ind, samples)
-            if o is not None and d is not None:
+            if st == 'ret' and isinstance(out, list) and beyond_exact(out, {x: sf[x][1] for x in symbols if sf[x][0] == 'dep'}):
+                res.boundary += 1
+                dist['beyond_exact_float_range'] = dist.get('beyond_exact_float_range', 0) + 1
+            elif o is not None and d is not None:
                 runs.append('([%s], %s, %s)' % ('; '.join('"%s"' % s for s in symbols), d, o))
         res.nontrivial.add(('L1H', cfg_key(history)))
         done += 1
@@ -1342,7 +1418,10 @@ def run_l2_history(cfg):
     changed = None
     for idx, extra in enumerate(cfg['history']):
         step = dict(cfg, student_extra=list(extra))
-        st, out, calls, log = call_l2(g, seen, step, patience=LONG)
+        pat = long_patience()
+        st, out, calls, log = call_l2(g, seen, step, patience=pat)
+        if st == 'timeout':
+            note_timeout(pat)
         fails = oracle_l2(step, st, out, list(seen), log)
         if changed is None and (snapshot_consts(g.constants) != before or snapshot_consts(g.config['user_constants']) != before_cfg):
             changed = ('submission %d changed the grader\'s constants from %r to %r' % (idx + 1, sorted(before), sorted(g.constants)))
@@ -1412,8 +1491,10 @@ def oracle_l2(cfg, st, out, seen, log):
                                  % (i, nm, vals[nm], render(e), ev[0]))
                 else:
                     try:
+                        INEXACT[0] = False
                         exact = fr_eval(e, {key: canon(val) for key, val in others.items()})
-                        if canon(vals[nm]) != exact and eps_for(full_sf, consts) == 0:
+                        if canon(vals[nm]) != exact and eps_for(full_sf, consts) == 0 and not INEXACT[0] \
+                                and all(value_exact(canon(val)) for val in vals.values()):
                             fails.append('sample %d: %s seen as %r, exact evaluation gives %r' % (i, nm, vals[nm], exact))
                     except FormulaError:
                         pass
@@ -1485,6 +1566,15 @@ def level2(ctx, res, rng):
         sf_items = '[' + '; '.join('("%s", %s)' % (s, 'None' if sf[s][0] != 'dep' else '(Some %s)' % coq_expr(fromlist(sf[s][1])))
                                    for s in sf) + ']'
         k = cfg['samples']
+        dep_map = {}
+        for x in call['symbols']:
+            base = x if x in sf else is_instance_name(x, heads)
+            if base is not None and base in sf and sf[base][0] == 'dep':
+                dep_map[x] = sf[base][1]
+        if beyond_exact((call['out'] or []) + [dict(zip(cfg['watch'], t)) for t in seen if len(t) == len(cfg['watch'])], dep_map):
+            res.boundary += 1
+            dist['beyond_exact_float_range'] = dist.get('beyond_exact_float_range', 0) + 1
+            continue
         sa = seen_term(cfg['watch'], seen[0::2]) if st == 'ret' and len(seen) == 2 * k else '[]'
         ss = seen_term(cfg['watch'], seen[1::2]) if st == 'ret' and len(seen) == 2 * k else '[]'
         if sa is None or ss is None:
@@ -1499,6 +1589,8 @@ def level2(ctx, res, rng):
     sib_cases(ctx, res, rng, dist, terms, metas)
     n_hist = 40 if ctx['tier'] == 'quick' else 300
     for g in range(n_hist):
+        if give_up_on_loops():
+            continue
         for attempt in range(20):
             cfg = gen_l2(rng, 'l2h/%d/%d/%d' % (ctx['seed'], g, attempt), want_shadowable=True)
             if cfg['variant'] == 'ok' and cfg['shadowable']:
@@ -1622,6 +1714,8 @@ def oracle_sib(cfg, st, out, seen):
         base = dict(consts)
         base.update({key: canon(v) for key, v in vals.items() if not key.startswith('sibling_')})
         sib_exact = {}
+        INEXACT[0] = False
+        outer, fails = fails, []
         for j, box in enumerate(cfg['boxes']):
             nm = 'sibling_%d' % (j + 1)
             if box['kind'] not in ('formula', 'matrix', 'numerical'):
@@ -1645,6 +1739,9 @@ def oracle_sib(cfg, st, out, seen):
             if canon(vals[nm]) != exact:
                 fails.append('sample %d: %s seen as %r but its formula %s gives %r on the sibling inputs and the other values seen'
                              % (i, nm, vals[nm], render(fromlist(e)), exact))
+        if INEXACT[0] or not all(value_exact(canon(v)) for v in vals.values()):
+            fails = []          # beyond the exact float range: no exact comparison for this sample (guard band)
+        fails = outer + fails
     return fails
 
 
@@ -1754,6 +1851,12 @@ def sib_cases(ctx, res, rng, dist, terms, metas):
             continue
         sa = seen_term(watch, seen) if st == 'ret' and len(seen) == cfg['samples'] else '[]'
         if sa is None:
+            continue
+        dep_map = dict(cfg['dep_exprs'])
+        dep_map.update({k2: tolist(e2) for k2, e2 in sibs})
+        if beyond_exact((call['out'] or []) + [dict(zip(watch, t)) for t in seen if len(t) == len(watch)], dep_map):
+            res.boundary += 1
+            dist['beyond_exact_float_range'] = dist.get('beyond_exact_float_range', 0) + 1
             continue
         terms.append('(([%s], [%s], [%s], [%s], %s, %s, %s, %s, [%s], %s), ([%s], %s, []))' % (
             '; '.join('"%s"' % v for v in variables), '; '.join('"%s"' % h for h in cfg['numbered']),
